@@ -173,3 +173,111 @@ class TermEnv:
         if tab is None:
             raise KeyError(f"no value for terminal {o!r}")
         return tab[comp]
+
+
+# ------------------------------------------------------------------------------------------------
+# Environments for the derivative semantics (scalar domain spec/jets/CQ.tla)
+# ------------------------------------------------------------------------------------------------
+
+
+def bd_tla(z0, z1=0, z2=0, z3=0):
+    return "<<" + ", ".join(to_tla(Cx.of(z)) for z in (z0, z1, z2, z3)) + ">>"
+
+
+class JetPool(Pool):
+    """Terminal pool whose TLA+ rendering seeds every terminal as a truncated Taylor series.
+
+    mode "spatial":  environment e = (E, a, b); terminal f is f + s d_a f + t d_b f + st d_a d_b f with
+                     independent random derivative data (d2 symmetric).  ndir = spatial dimension.
+    mode "gateaux":  one TLC environment per base environment; `seeds` maps a terminal name to
+                     (name of the s-direction terminal or None, name of the t-direction or None).
+    mode "variable": environment e = (E, a, b) over the flattened components of the differentiation
+                     variable; terminals are not seeded (the action seedvar seeds the variable).
+    Terminals may carry options: {"kind": "coef"|"arg0"|"arg1", "grad_of": name}.
+    """
+
+    def __init__(self, terminals, mode, ndir=0, seeds=None, nenv=1, seed=0, tiny=True, complex_env=False, opts=None):
+        super().__init__(terminals, nenv=nenv, seed=seed, tiny=tiny, complex_env=complex_env)
+        self.mode = mode
+        self.ndir = ndir
+        self.seeds = seeds or {}
+        self.opts = opts or {}
+        self.nbase = nenv
+        rng = random.Random(seed * 104729 + 5)
+        self.d1 = []
+        self.d2 = []
+        if mode == "spatial":
+            for e in range(nenv):
+                d1, d2 = {}, {}
+                for name, shape in self.terminals:
+                    d1[name] = {}
+                    d2[name] = {}
+                    for c in comps(shape):
+                        for m in range(ndir):
+                            d1[name][c + (m,)] = Cx(Fraction(rng.choice([1, -1]) * rng.randint(1, 9)))
+                        for m in range(ndir):
+                            for n in range(m, ndir):
+                                v = Cx(Fraction(rng.choice([1, -1]) * rng.randint(1, 9)))
+                                d2[name][c + (m, n)] = v
+                                d2[name][c + (n, m)] = v
+                self.d1.append(d1)
+                self.d2.append(d2)
+        if mode in ("spatial", "variable"):
+            self.envdirs = [(E + 1, a, b) for E in range(nenv) for a in range(ndir) for b in range(ndir)]
+        else:
+            self.envdirs = []
+        self.ntlc = len(self.envdirs) if self.envdirs else nenv
+
+    def _seed(self, E, sd, c):
+        """Perturbation of component c: None | name | ("comp", k, name) | ("prod", a, b)."""
+        if sd is None:
+            return 0
+        if isinstance(sd, str):
+            if sd not in self.values[E]:
+                return 0  # direction terminal not part of this slice's pool
+            return self.values[E][sd][c]
+        if sd[0] == "comp":
+            return self.values[E][sd[2]][()] if tuple(c) == tuple(sd[1]) else 0
+        if sd[0] == "prod":  # scalar a times b (user-supplied coefficient derivative times direction)
+            return self.values[E][sd[1]][()] * self.values[E][sd[2]][c]
+        raise ValueError(sd)
+
+    def tlc_env_of_base(self, E):
+        """Index (0-based) of the TLC environment whose VALUES are those of base environment E."""
+        if self.envdirs:
+            return self.envdirs.index((E + 1, 0, 0))
+        return E
+
+    def tla_termval(self):
+        envs = []
+        if self.mode == "gateaux":
+            for E in range(self.nbase):
+                tabs = []
+                for name, shape in self.terminals:
+                    sd, td = self.seeds.get(name, (None, None))
+                    ents = []
+                    for c in comps(shape):
+                        z0 = self.values[E][name][c]
+                        z1 = self._seed(E, sd, c)
+                        z2 = self._seed(E, td, c)
+                        ents.append(f"{_seq(c)} :> {bd_tla(z0, z1, z2, 0)}")
+                    tabs.append("(" + " @@ ".join(ents) + ")")
+                envs.append("<<" + ",\n     ".join(tabs) + ">>")
+        else:
+            for E1, a, b in self.envdirs:
+                E = E1 - 1
+                tabs = []
+                for name, shape in self.terminals:
+                    ents = []
+                    for c in comps(shape):
+                        z0 = self.values[E][name][c]
+                        if self.mode == "spatial":
+                            ents.append(f"{_seq(c)} :> {bd_tla(z0, self.d1[E][name][c + (a,)], self.d1[E][name][c + (b,)], self.d2[E][name][c + (a, b)])}")
+                        else:
+                            ents.append(f"{_seq(c)} :> {bd_tla(z0)}")
+                    tabs.append("(" + " @@ ".join(ents) + ")")
+                envs.append("<<" + ",\n     ".join(tabs) + ">>")
+        return "<<" + ",\n   ".join(envs) + ">>"
+
+    def tla_envdirs(self):
+        return "<<" + ", ".join(f"<<{E}, {a}, {b}>>" for E, a, b in self.envdirs) + ">>"
